@@ -475,16 +475,13 @@ theorem pm_write_shape {enc : Bytes → Bytes} {s : PMTiles.Source} {file : Byte
         (PMTiles.encHeader (PMTiles.mkHeader s root.length leaves.length data.length n)) := by
   unfold PMTiles.write at hw
   simp only at hw
-  split at hw
-  · cases hw
-  · split at hw
-    · split at hw
-      · simp only [Outcome.ok.injEq] at hw
-        exact ⟨_, _, _, _, hw.symm⟩
-      · cases hw
-      · cases hw
-    · cases hw
-    · cases hw
+  -- peel the guards and matches of the writer model; only one branch returns `.ok`
+  repeat' (first
+    | (split at hw)
+    | (cases hw; done))
+  all_goals first
+    | (cases hw; done)
+    | (simp only [Outcome.ok.injEq] at hw; exact ⟨_, _, _, _, hw.symm⟩)
 
 theorem drop_leEnc_nil (k v n : Nat) (h : k ≤ n) : (leEnc k v).drop n = [] :=
   List.drop_eq_nil_of_le (by simp; exact h)
